@@ -102,6 +102,26 @@ func ruleParseBodyTotal(w *World, r *Run, ruleB, ruleD string) {
 				sep = true
 			}
 		}
+		// … or a line assembled from several ReadLine fragments (a line longer than the reader's buffer) found empty
+		if !sep {
+			isLine := func(t *Term) bool {
+				ok := false
+				for t != nil && t.Kind == "append" && len(t.Args) == 2 {
+					el := t.Args[1]
+					if !(el.Kind == "call" && strings.HasPrefix(el.Name, "(*bufio.Reader).Read")) {
+						return false
+					}
+					ok = true
+					t = t.Args[0]
+				}
+				return ok && t != nil && (t.Kind == "nil" || t.Kind == "zero" || t.Kind == "alloc")
+			}
+			for _, f := range s.Facts {
+				if x := assertsEmpty(f); x != nil && isLine(x) {
+					sep = true
+				}
+			}
+		}
 		switch {
 		case definitelyNil:
 			key := fnParseBody + " | success only after the blank separator"
@@ -166,7 +186,14 @@ func ruleParseBodyTotal(w *World, r *Run, ruleB, ruleD string) {
 	// C11.e RETAINED-BUFFER (ownership): bufio.Reader.ReadLine returns a view into the reader's buffer that is only
 	// valid until the next read; it may be measured, converted (copied) or passed on, never retained.
 	nRL := 0
-	for _, s := range sums {
+	// explored again with copies kept distinct from their source: this rule is about aliasing, not about values
+	aliasSums := sums
+	if afn := w.fn(fnParseBody); afn != nil {
+		ae := w.engine(4, 2)
+		ae.cloneFresh = true
+		aliasSums = ae.Explore(afn)
+	}
+	for _, s := range aliasSums {
 		for _, rl := range calls(s, "(*bufio.Reader).ReadLine") {
 			nRL++
 			line := res(rl, 0)
@@ -226,7 +253,7 @@ func ruleParseBodyTotal(w *World, r *Run, ruleB, ruleD string) {
 							return false
 						}
 						for _, el := range t.Args[1:] {
-							if el == line || (el.Kind == "varargs" && containsTerm(el.Args, line)) {
+							if (el == line && !copiesElements(t)) || (el.Kind == "varargs" && containsTerm(el.Args, line)) {
 								return true
 							}
 						}
@@ -242,7 +269,7 @@ func ruleParseBodyTotal(w *World, r *Run, ruleB, ruleD string) {
 						return false
 					}
 					for _, el := range t.Args[1:] {
-						if el == line || (el.Kind == "varargs" && containsTerm(el.Args, line)) {
+						if (el == line && !copiesElements(t)) || (el.Kind == "varargs" && containsTerm(el.Args, line)) {
 							return true
 						}
 					}
@@ -257,6 +284,19 @@ func ruleParseBodyTotal(w *World, r *Run, ruleB, ruleD string) {
 	if nRL == 0 {
 		r.Info(ruleE, fnParseBody+" | ReadLine", "", "parseBody no longer uses ReadLine")
 	}
+}
+
+// copiesElements: an append whose elements are of basic type (bytes): append(dst, src...) copies src's contents.
+func copiesElements(t *Term) bool {
+	if t == nil || t.Typ == nil {
+		return false
+	}
+	sl, ok := t.Typ.Underlying().(*types.Slice)
+	if !ok {
+		return false
+	}
+	_, basic := sl.Elem().Underlying().(*types.Basic)
+	return basic
 }
 
 func containsTerm(ts []*Term, x *Term) bool {
@@ -278,6 +318,10 @@ func rawMention(t, x *Term) bool {
 	}
 	if t.Kind == "conv" || t.Kind == "len" || t.Kind == "call" {
 		return false
+	}
+	if t.Kind == "append" && copiesElements(t) && len(t.Args) >= 1 {
+		// append(dst, view...) on bytes copies the view's contents: only dst can carry the view itself
+		return rawMention(t.Args[0], x)
 	}
 	for _, a := range t.Args {
 		if rawMention(a, x) {
